@@ -15,10 +15,10 @@ type zipPolicy struct {
 	// role of a member: "payload", "signature", "metadata", "directory"
 	role func(name string) string
 	// assertion policy per mutation class: returns (assert, why)
-	replace func(name, role string) (bool, string)
-	insert  func(name, where string) (bool, string)
-	remove  func(name, role string) (bool, string)
-	rename  func(name, role string) (bool, string)
+	replace     func(name, role string) (bool, string)
+	insert      func(name, where string) (bool, string)
+	remove      func(name, role string) (bool, string)
+	rename      func(name, role string) (bool, string)
 	appendAfter [2]string // [0]="assert"|"" , [1]=why
 	gapBeforeCD [2]string
 	insertNames []string
